@@ -1589,3 +1589,17 @@ fn test_multintt() {
         }
     }
 }
+
+/// Verification hooks (only with `--cfg yamaquasi_verif`): NTT prime table and the number of
+/// primes selected by `MultiZmodP::new`.
+#[cfg(yamaquasi_verif)]
+pub mod verif_hooks {
+    use super::*;
+
+    pub fn vh_ntt_primes() -> &'static [(u64, u64)] {
+        NTT_PRIMES
+    }
+    pub fn vh_mzp_w(mzp: &MultiZmodP) -> usize {
+        mzp.w
+    }
+}
